@@ -105,6 +105,16 @@ else:
             fcntl.flock(file.fileno(), _flags)
         except (IOError, OSError) as err:
             raise LockError("Couldn't lock {0}, error: {1}".format(file.name, err))
+        # The previous holder might have removed the lock file between our
+        # open() and flock(). We would hold a lock on an orphaned inode while
+        # someone else creates and locks a new file with the same name.
+        try:
+            locked = os.fstat(file.fileno())
+            current = os.stat(file.name)
+        except OSError as err:
+            raise LockError("Couldn't lock {0}, error: {1}".format(file.name, err))
+        if (locked.st_dev, locked.st_ino) != (current.st_dev, current.st_ino):
+            raise LockError("Couldn't lock {0}, file was replaced".format(file.name))
 
     def _unlock_file(file):
         # File is automatically unlocked on close
